@@ -287,7 +287,21 @@ def record_traces(rng, u, ntraces, length):
                         else:
                             ns = rng.choice([None, 0, 10, 828, 100])
                             t = rand_title(rng, u, ns, False)
-                        kind = rng.choice(["get", "get", "resolve", "exists", "body", "reopen_get"])
+                        kind = rng.choice(["get", "get", "resolve", "exists", "body", "reopen_get", "count", "all"])
+                        if kind in ("count", "all"):
+                            has_ns = rng.random() < 0.7
+                            nsl = sorted(set(rng.choice([0, 10, 828, 100, 14, 110]) for _ in range(rng.randint(1, 3)))) if has_ns else []
+                            redirects = rng.random() < 0.6
+                            has_model = rng.random() < 0.4
+                            model = rng.choice(["wikitext", "Scribunto", "json"]) if has_model else ""
+                            ev = {"op": kind, "tid": tid, "hasNs": has_ns, "nsl": nsl, "redirects": redirects, "hasModel": has_model, "model": model}
+                            kw = dict(namespace_ids=nsl if has_ns else None, include_redirects=redirects, model=model if has_model else None)
+                            if kind == "count":
+                                ev["res"] = {"n": ctx.saved_page_nums(**kw)}
+                            else:
+                                ev["res"] = {"rows": [abs_page(p, u) for p in ctx.get_all_pages(**kw)]}
+                            events.append(ev)
+                            continue
                         nr = rng.random() < 0.3
                         ev = {"op": kind, "tid": tid, "title": t, "ns": NONS if ns is None else ns, "nr": nr}
                         ts = conc(t)
